@@ -99,6 +99,23 @@ async def scenario(loop, plan, r):
     mc = Multicast(ezsp)
     await mc._initialize()
     invariants(mc, sim, r, "after initial scan")
+    ep = None
+    if plan.get("via") == "endpoint":
+        # subscribe / unsubscribe through the coordinator's endpoint object, which keeps zigpy's group membership
+        import zigpy.device
+        import zigpy.types as zt
+        import zigpy.zdo.types as zdo_t
+        from bellows.zigbee.device import EZSPEndpoint
+        from vlib import zshim
+
+        app = zshim.make_app()
+        app._ezsp = ezsp
+        app._multicast = mc
+        dev = zigpy.device.Device(app, zt.EUI64.convert("00:11:22:33:44:55:66:77"), 0x0000)
+        desc = zdo_t.SimpleDescriptor(endpoint=1, profile=260, device_type=5, device_version=0, input_clusters=[], output_clusters=[])
+        ep = EZSPEndpoint(dev, 1, desc)
+        dev.endpoints[1] = ep
+        r.cls("via-endpoint")
     failed_then_sub = False
     had_failure = False
     for n, op in enumerate(plan["ops"]):
@@ -160,6 +177,39 @@ async def scenario(loop, plan, r):
         was_sub = g in {int(x) for x in mc._multicast}
         ncp_free = sum(1 for _, ep in sim.table if ep == 0)
         status, exc = None, None
+        if ep is not None:
+            # via the endpoint: a refusal surfaces as ValueError, a lost reply as TimeoutError; membership must follow the NCP
+            member0 = set(int(x) for x in ep.member_of)
+            if (kind == "sub") == (g in member0):
+                continue  # the endpoint answers from its own membership without touching the table: nothing to judge here
+            try:
+                await (ep.add_to_group(g) if kind == "sub" else ep.remove_from_group(g))
+                status = t.sl_Status.OK
+            except asyncio.TimeoutError as ex:
+                exc = ex
+            except ValueError:
+                status = t.sl_Status.FAIL
+            except Exception as ex:
+                r.bad(f"C15:raises:{type(ex).__name__}", f"{where}: {ex!r}")
+                return
+            sim.answers = []
+            member1 = set(int(x) for x in ep.member_of)
+            ncp_now = {gg for gg, e_ in sim.table if e_ != 0}
+            okc = exc is None and int(status) == 0
+            want = (member0 | {g}) if (okc and kind == "sub") else (member0 - {g}) if (okc and kind == "unsub") else member0
+            if member1 != want:
+                r.bad("C15:endpoint-membership-wrong", f"{where}: endpoint reports {sorted(member1)}, expected {sorted(want)} "
+                      f"({'accepted' if okc else 'failed'} call); NCP holds {sorted(ncp_now)}")
+                return
+            if not member1 <= ncp_now:
+                r.bad("C15:endpoint-reports-unprogrammed-group", f"{where}: endpoint {sorted(member1)} NCP {sorted(ncp_now)}")
+                return
+            if not okc:
+                had_failure = True
+            invariants(mc, sim, r, where)
+            if r.violations:
+                return
+            continue
         try:
             status = await (mc.subscribe(g) if kind == "sub" else mc.unsubscribe(g))
         except asyncio.TimeoutError as ex:
@@ -247,7 +297,11 @@ def plans(draw):
             ops.append(["startup", gs, draw(st.lists(answer, max_size=4))])
         else:
             ops.append([kind, draw(st.integers(1, 5)), draw(answer)])
-    return {"v": draw(st.sampled_from([4, 8, 13, 14])), "size": size, "table": [list(x) for x in table], "ops": ops}
+    plan = {"v": draw(st.sampled_from([4, 8, 13, 14])), "size": size, "table": [list(x) for x in table], "ops": ops}
+    if draw(st.integers(0, 3)) == 0:
+        plan["via"] = "endpoint"
+        plan["ops"] = [o for o in ops if o[0] in ("sub", "unsub")] or [["sub", 1, "ok"]]
+    return plan
 
 
 def _worker(ctx, n):
